@@ -96,18 +96,38 @@ def sh(cmd, timeout, cwd=None):
         return 124, out + f'\n[timeout after {timeout}s]'
 
 
-def coq_build(timeout=1500):
-    """Full .vo build of everything listed in _CoqProject (incremental)."""
+def gen_coqproject():
+    """_CoqProject lists every .v under coq/ (sorted); rewritten only when the set changes."""
+    files = []
+    for root, dirs, fs in os.walk(COQ):
+        dirs.sort()
+        for f in sorted(fs):
+            if f.endswith('.v'):
+                files.append(os.path.relpath(os.path.join(root, f), COQ))
+    text = ('-Q . PV\n-arg -w -arg -notation-overridden,-deprecated-hint-without-locality,'
+            '-deprecated-instance-without-locality\n' + '\n'.join(sorted(files)) + '\n')
+    cp = os.path.join(COQ, '_CoqProject')
+    if not os.path.exists(cp) or open(cp).read() != text:
+        with open(cp, 'w') as f:
+            f.write(text)
+        return True
+    return False
+
+
+def coq_build(target=None, timeout=2400):
+    """Full .vo build (never -vos) of `target` (e.g. Props/C14.vo) and everything it depends on,
+    or of the whole development when target is None.  Serialised by a lock file."""
     os.makedirs(WORK, exist_ok=True)
     with open(os.path.join(WORK, '.build.lock'), 'w') as lk:
         fcntl.flock(lk, fcntl.LOCK_EX)
+        changed = gen_coqproject()
         mk = os.path.join(COQ, 'Makefile')
-        cp = os.path.join(COQ, '_CoqProject')
-        if not os.path.exists(mk) or os.path.getmtime(mk) < os.path.getmtime(cp):
+        if changed or not os.path.exists(mk):
             rc, out = sh(['coq_makefile', '-f', '_CoqProject', '-o', 'Makefile'], 60, cwd=COQ)
             if rc:
                 raise MachineryError('coq_makefile failed:\n' + out)
-        rc, out = sh(['make', f'-j{NCPU}'], timeout, cwd=COQ)
+        cmd = ['make', f'-j{NCPU}'] + ([target] if target else [])
+        rc, out = sh(cmd, timeout, cwd=COQ)
         return rc, out
 
 
